@@ -49,7 +49,7 @@ var c18Stores = []string{evmtypes.StoreKey, feemarkettypes.StoreKey, cpctypes.St
 
 // Pre-installed contracts.
 var (
-	c18AddrStore   = common.HexToAddress("0x0000000000000000000000000000000000c18001") // setter/getter, storage {0:5, 1:6, 2:0}
+	c18AddrStore   = common.HexToAddress("0x0000000000000000000000000000000000c18001") // setter/getter, storage {0:5, 1:6, 2:0, 2^256-1:0x2a, 2^256-2:0x2b, 2^255:0x2c}
 	c18AddrSuicide = common.HexToAddress("0x0000000000000000000000000000000000c18002") // SELFDESTRUCT, storage {0:1, 1:0}, funded
 	c18AddrBurn    = common.HexToAddress("0x0000000000000000000000000000000000c18003") // gas burner, code without storage
 	c18AddrSink    = common.HexToAddress("0x0000000000000000000000000000000000c180ff")
@@ -70,7 +70,11 @@ func c18StoreCode() []byte {
 
 func c18Contracts() []world.Contract {
 	return []world.Contract{
-		{Addr: c18AddrStore, Code: c18StoreCode(), Storage: map[common.Hash]common.Hash{h(0): h(5), h(1): h(6), h(2): h(0)}},
+		// besides the small slots: the boundary keys of the 256-bit key space (first / last key of the account's storage range)
+		{Addr: c18AddrStore, Code: c18StoreCode(), Storage: map[common.Hash]common.Hash{h(0): h(5), h(1): h(6), h(2): h(0),
+			common.HexToHash("0xffffffffffffffffffffffffffffffffffffffffffffffffffffffffffffffff"): h(0x2a),
+			common.HexToHash("0xfffffffffffffffffffffffffffffffffffffffffffffffffffffffffffffffe"): h(0x2b),
+			common.HexToHash("0x8000000000000000000000000000000000000000000000000000000000000000"): h(0x2c)}},
 		{Addr: c18AddrSuicide, Code: asm.New().SelfDestruct(c18AddrSink).Bytes(), Storage: map[common.Hash]common.Hash{h(0): h(1), h(1): h(0)},
 			Coins: sdk.NewCoins(sdk.NewCoin(world.Denom, sdkmath.NewInt(1000)))},
 		{Addr: c18AddrBurn, Code: asm.New().BurnGas(c18BurnIterations).Stop().Bytes()},
